@@ -2,12 +2,15 @@
 
 mod exact;
 mod farmobs;
+mod ledger;
 mod ops;
+mod pinned;
 mod poolev;
 mod ssx;
 mod props;
 mod report;
 mod world;
+mod wfarm;
 mod wpool;
 
 use std::time::Instant;
@@ -106,6 +109,13 @@ fn main() {
     }));
 
     let args: Vec<String> = std::env::args().collect();
+    if args.len() >= 2 && args[1] == "pinned" {
+        for (id, f) in pinned::all() {
+            let r = std::panic::catch_unwind(f);
+            println!("{id}: {r:?}");
+        }
+        return;
+    }
     if args.len() < 3 || args[1] != "check" {
         usage();
     }
